@@ -560,12 +560,19 @@ impl ChannelManager {
     let in_channels = mng_guard.in_channels.clone();
     drop(mng_guard);
 
+    let mut result = Ok(());
+
     if let Some((_, in_channels_set)) = in_channels.remove(&nid.username) {
       for channel_id in in_channels_set.iter() {
-        self.leave_channel(channel_id.clone(), nid.clone(), None, None, 0).await?;
+        // A failure to leave one channel must not keep the user in the remaining ones.
+        if let Err(e) = self.leave_channel(channel_id.clone(), nid.clone(), None, None, 0).await
+          && result.is_ok()
+        {
+          result = Err(e);
+        }
       }
     }
-    Ok(())
+    result
   }
 
   /// Gets the access control list (ACL) for a channel.
